@@ -59,6 +59,11 @@ RARE = {'filter_false', 'identity', 'assert_true', 'do_action'}
 DISCONT_ON_FLOAT = {'duc', 'min', 'max', 'clip'}
 
 
+import os
+# experiments only (e.g. looking behind a shallow defect of an old commit): never set by registered commands
+ENV_EXCLUDE = set(filter(None, os.environ.get('VERIF_EXCLUDE_KINDS', '').split(',')))
+
+
 def candidates(t, opts, depth_left, no_ct):
     out = []
     for cat, names in CATS.items():
@@ -69,7 +74,7 @@ def candidates(t, opts, depth_left, no_ct):
         if cat == 'tee' and (not opts.tee or depth_left <= 0):
             continue
         for n in names:
-            if n in opts.exclude or (opts.only is not None and n not in opts.only):
+            if n in opts.exclude or n in ENV_EXCLUDE or (opts.only is not None and n not in opts.only):
                 continue
             if n == 'time_split' and not opts.time_split:
                 continue
@@ -123,7 +128,7 @@ def draw_params(draw, name, t, opts, depth_left, no_ct):
     if name == 'scan_or':
         return [name, draw(ints(-2, 4))]
     if name == 'scan_list':
-        return [name, draw(st.sampled_from(['value', 'factory'])), red()]
+        return [name, draw(st.sampled_from(['value', 'factory'])), red() if t in A.SCALAR else True]
     if name == 'take':
         return [name, draw(ints(0, 4))]
     if name == 'batch':
